@@ -80,6 +80,13 @@ pub fn alphabet() -> Vec<Vec<Value>> {
             rule("bd", 4, "/c", None, None, json!({"body_filters": [{"action": "append_child", "value": "<i>x</i>", "inner_value": null, "element_tree": ["html", "body"], "css_selector": null, "id": "ub", "target_hash": "tb"}]}), vec![ex("/c", true, &["ub"])]),
             rule("bd", 4, "/c", None, None, json!({"body_filters": [{"action": "replace_text", "content": "R", "id": "ub2", "target_hash": null}]}), vec![ex("/c", true, &["ub2"])]),
         ],
+        // the other element edits (replace, prepend_child) and a text edit, on elements of the skeleton the analyses filter
+        vec![
+            rule("br", 5, "/p/x", None, None, json!({"body_filters": [{"action": "replace", "value": "<head><title>t</title></head>", "element_tree": ["html", "head"], "css_selector": null, "id": "ur", "target_hash": "tr"},
+                                                                        {"action": "prepend_text", "content": "<!-- p -->", "id": "upt", "target_hash": null}]}), vec![ex("/p/x", true, &["ur", "upt"])]),
+            rule("br", 5, "/p/x", None, None, json!({"body_filters": [{"action": "prepend_child", "value": "<b>y</b>", "inner_value": null, "element_tree": ["html", "body"], "css_selector": null, "id": "up", "target_hash": null},
+                                                                        {"action": "replace", "value": "<body>z</body>", "element_tree": ["html", "body"], "css_selector": "", "id": "ur2", "target_hash": "tr2"}]}), vec![ex("/p/x", true, &["up", "ur2"])]),
+        ],
         vec![
             rule("lg", 3, "/a", None, None, json!({"log_override": false, "configuration_log_unit_id": "ul"}), vec![ex("/a", true, &["ul"])]),
             rule("lg", 3, "/a", None, None, json!({"log_override": true, "configuration_log_unit_id": "ul", "reset": true, "configuration_reset_unit_id": "ur"}), vec![ex("/a", true, &["ul", "ur"])]),
@@ -588,6 +595,34 @@ pub fn check_case(case: &Case) -> Vec<(String, String)> {
                     // the open finding: with an example status code explain skips the request-time phase. It only
                     // explains differences in cases where the live pipeline decides at request time.
                     let phase = if case.example_code.is_some() && request_time_status(&final_router, &e) != 0 { "given,live-pipeline-decides-at-request-time" } else if case.example_code.is_some() { "given,backend-phase" } else { "none" };
+                    // unit ids of body filters, stated without the library: when the live pipeline applies exactly ONE rule, every
+                    // body filter of that rule whose target exists in the skeleton the analyses filter (html > head, body; text
+                    // edits always apply) is among the unit ids explain reports
+                    if phase != "given,live-pipeline-decides-at-request-time" {
+                        if let Some((applied, _)) = live_applied_ids(&final_router, &e) {
+                            if applied.len() == 1 {
+                                let rid = applied.iter().next().cloned().unwrap_or_default();
+                                let reported: BTreeSet<String> = s["unit_trace"]["unit_ids_applied"].as_array().cloned().unwrap_or_default().iter().filter_map(|x| x.as_str().map(|y| y.to_string())).collect();
+                                if let Some(rule) = b.final_rules.iter().find(|r| r["id"] == rid.as_str()) {
+                                    for f in rule["body_filters"].as_array().cloned().unwrap_or_default() {
+                                        let action = f["action"].as_str().unwrap_or("");
+                                        let in_skeleton = match action {
+                                            "append_text" | "prepend_text" | "replace_text" => true,
+                                            _ => f["css_selector"].as_str().map(|c| c.is_empty()).unwrap_or(true) && (f["element_tree"] == json!(["html", "body"]) || f["element_tree"] == json!(["html", "head"])),
+                                        };
+                                        if let (true, Some(id)) = (in_skeleton, f["id"].as_str()) {
+                                            if !reported.contains(id) {
+                                                out.push((
+                                                    format!("explain:unit-id-of-applied-body-filter-missing:{action}"),
+                                                    format!("rule {rid} is the only rule the live pipeline applies, its {action} filter (unit {id}) targets an element of the analysed skeleton, explain reports unit ids {reported:?}; example {example}; {ctx}"),
+                                                ));
+                                            }
+                                        }
+                                    }
+                                }
+                            }
+                        }
+                    }
                     for (f, ok) in fields {
                         if !ok {
                             out.push((
